@@ -94,6 +94,31 @@ def gen (n : Nat) : G (List String) := do
         let k ← pick [224, 224, 50]
         pure (encBE 4 5 ++ encBE 4 1 ++ [10, 0, 0, 1] ++ encBE 4 0 ++ encBE 4 1 ++ encBE 4 2 ++ encBE 4 k ++ (List.replicate k one).flatten))
     out := out ++ [allocLine (if i % 2 = 0 then "sf" else "auto") e clock many2 0]
+    -- (h) sampled headers of tunnels: a chain of IPv4 headers carrying IPv4 (protocol 4), each with a header-length nibble
+    --     from {0, 1, 4, 5, 6, 15} (0 is not a length a header can have; the walk over the layers must still advance)
+    let depth ← range 1 6
+    let mut chain : Bytes := []
+    for _ in [0:depth] do
+      let ihl ← pick [0, 0, 1, 4, 5, 6, 15]
+      let nxt ← pick [4, 4, 4, 41, 47, 6]
+      chain := chain ++ [0x40 + ihl, 0] ++ encBE 2 (← range 0 1500) ++ (← bytesOf 4) ++ [64, nxt] ++ (← bytesOf 10)
+    let tail ← bytesOf (← range 0 40)
+    let tframe : Bytes := (← bytesOf 12) ++ [0x08, 0x00] ++ chain ++ tail
+    let tdg : Spec.Sflow.Datagram := ⟨[10, 0, 0, 1], 0, 1, 2, [.flow 1 0 7 [10, 0, 0, 1, 2] [.rawHeader 1 tframe.length 0 tframe]]⟩
+    out := out ++ [allocLine (if i % 2 = 0 then "sf" else "auto") e clock (Spec.Sflow.encode tdg) 0]
+    -- (i) an exporter that has announced thousands of templates (three datagrams of 1100 one-field templates each), then
+    --     refreshes 400 of them: what a datagram costs depends on its own length, not on how much the exporter said before
+    let hv ← pick [9, 10]
+    let e2 : Exporter := ⟨[10, 0, 0, 8], 2055⟩
+    let tplDatagram (first k dom : Nat) : Bytes :=
+      let recs : Bytes := (List.range k).flatMap fun j => encBE 2 (256 + first + j) ++ encBE 2 1 ++ encBE 2 (1001 + j % 7) ++ encBE 2 4
+      let set : Bytes := encBE 2 (if hv = 9 then 0 else 2) ++ encBE 2 (4 + recs.length) ++ recs
+      if hv = 9 then encBE 2 9 ++ encBE 2 k ++ encBE 4 1 ++ encBE 4 2 ++ encBE 4 3 ++ encBE 4 dom ++ set
+      else encBE 2 10 ++ encBE 2 (16 + set.length) ++ encBE 4 2 ++ encBE 4 3 ++ encBE 4 dom ++ set
+    if i % 4 = 0 then
+      for h in [0:3] do
+        out := out ++ [allocLine pipe e2 clock (tplDatagram (1100 * h) 1100 9) 2]
+      out := out ++ [allocLine pipe e2 clock (tplDatagram (← range 0 2800) 400 9) 2]
     -- (d) degenerate templates
     out := out ++ [allocLine "nf" e clock (← C01.degenerate 10) 1, allocLine "nf" e clock (← C01.degenerate 9) 1]
   pure out
